@@ -782,9 +782,31 @@ func evalPanicCall(entry string) (string, string) {
 				txn.Handle("GET", "/a/{x}", h, bad)
 				txn.Commit()
 			}()
+		case "Updates{Handle; Commit; panic}":
+			// the function settles the transaction itself (allowed) and then panics: the recovery of Updates must not
+			// touch the writer lock a second time
+			f.Updates(func(txn *fox.Txn) error {
+				txn.Handle("GET", "/a/c", h, fx.WithVer(1))
+				txn.Commit()
+				panic(boomVal{})
+			})
+		case "Updates{Handle; Abort; panic}":
+			f.Updates(func(txn *fox.Txn) error {
+				txn.Handle("GET", "/a/c", h, fx.WithVer(1))
+				txn.Abort()
+				panic(boomVal{})
+			})
 		}
 	}()
-	desc := "middleware constructor panicking during " + entry + " on {GET /a, GET /a/b}"
+	if entry == "Updates{Handle; Commit; panic}" {
+		// committed before the panic: the write stays
+		g, _ := fox.New()
+		for _, p := range []string{"/a", "/a/b", "/a/c"} {
+			g.MustHandle("GET", p, h, fx.WithVer(1))
+		}
+		before = hist.Observe(g, poolPrefix)
+	}
+	desc := "panic during " + entry + " on {GET /a, GET /a/b}"
 	if _, ok := pv.(boomVal); !ok {
 		return "panic-swallowed", fmt.Sprintf("the panic did not propagate unchanged (got %v): %s", pv, desc)
 	}
@@ -809,7 +831,7 @@ func evalPanicCall(entry string) (string, string) {
 	return "", ""
 }
 
-var panicEntries = []string{"Router.Handle", "Router.Update", "Router.NewRoute+HandleRoute", "Updates{Handle ok; Handle panicking}", "Updates{Delete; Update panicking}", "Txn(true){Handle panicking} with deferred Abort"}
+var panicEntries = []string{"Router.Handle", "Router.Update", "Router.NewRoute+HandleRoute", "Updates{Handle ok; Handle panicking}", "Updates{Delete; Update panicking}", "Txn(true){Handle panicking} with deferred Abort", "Updates{Handle; Commit; panic}", "Updates{Handle; Abort; panic}"}
 
 func init() {
 	mc.Register(&mc.Check{
